@@ -31,12 +31,13 @@ pub fn judge_phrase(phrase: &str, cls: &mut Classifier) -> Verdict {
 
 fn judge_phrase_via(phrase: &str, cls: &mut Classifier, from_str: bool) -> Verdict {
     let entry = if from_str { "str::parse::<Mnemonic>" } else { "Mnemonic::from_phrase" };
-    // inputs the property does not decide: non-ASCII white space, case variants of list words
+    // inputs the property does not decide: non-ASCII white space
     let has_unicode_ws = phrase.chars().any(|c| c.is_whitespace() && !is_ascii_ws(c));
     let tokens = bip39::split_ascii_ws(phrase);
-    let case_variant = tokens
-        .iter()
-        .any(|t| bip39::lookup(t).is_none() && bip39::lookup(&t.to_lowercase()).is_some());
+    // A word that differs from a list word only by letter case (or by a character that case-folds onto an
+    // ASCII letter, like U+212A KELVIN SIGN) is not a word of the list: the list is lower case, the printed form
+    // must be "the same words" and printing must invert parsing, so accepting `Legal` as `legal` breaks two
+    // clauses. Such words are judged like any other unknown word.
     let got = crate::isolate::inflight("mnemonic", phrase.as_bytes(), "generated", || {
         catch(|| {
             let parsed = if from_str { phrase.parse::<Mnemonic>().map_err(|e| e.to_string()) } else { Mnemonic::from_phrase(phrase).map_err(|e| e.to_string()) };
@@ -53,9 +54,9 @@ fn judge_phrase_via(phrase: &str, cls: &mut Classifier, from_str: bool) -> Verdi
             )
         }
     };
-    if has_unicode_ws || case_variant {
+    if has_unicode_ws {
         if !from_str {
-            cls.unspecified(if has_unicode_ws { "non-ascii-whitespace" } else { "case-variant-of-list-word" });
+            cls.unspecified("non-ascii-whitespace");
         }
         return Ok(());
     }
@@ -297,7 +298,35 @@ fn not_a_word(u: &mut crate::gen::U) -> String {
     for _ in 0..20 {
         let base = bip39::word(u.below(2048) as u16).to_string();
         let mut chars: Vec<char> = base.chars().collect();
-        let cand = match u.below(14) {
+        let cand = match u.below(16) {
+            14 | 15 => {
+                // letter-case variants of a list word and characters that case-fold onto ASCII letters
+                match u.below(5) {
+                    0 => base.to_uppercase(),
+                    1 => {
+                        let mut c = base.chars();
+                        let first = c.next().map(|f| f.to_ascii_uppercase()).unwrap_or('A');
+                        format!("{first}{}", c.as_str())
+                    }
+                    2 => {
+                        let i = u.below(chars.len());
+                        chars[i] = chars[i].to_ascii_uppercase();
+                        chars.iter().collect()
+                    }
+                    3 => base.chars().enumerate().map(|(i, ch)| if i % 2 == 1 { ch.to_ascii_uppercase() } else { ch }).collect(),
+                    _ => {
+                        // a word containing k with U+212A KELVIN SIGN in its place (lower-cases to k)
+                        let mut w = base.clone();
+                        for _ in 0..40 {
+                            if w.contains('k') {
+                                break;
+                            }
+                            w = bip39::word(u.below(2048) as u16).to_string();
+                        }
+                        if w.contains('k') { w.replacen('k', "\u{212a}", 1) } else { w.to_uppercase() }
+                    }
+                }
+            }
             0 => {
                 let i = u.below(chars.len());
                 chars.remove(i);
@@ -378,11 +407,7 @@ fn not_a_word(u: &mut crate::gen::U) -> String {
             }
             _ => format!("{}{}", (b'a' + u.below(26) as u8) as char, base),
         };
-        if !cand.is_empty()
-            && !cand.chars().any(char::is_whitespace)
-            && bip39::lookup(&cand).is_none()
-            && bip39::lookup(&cand.to_lowercase()).is_none()
-        {
+        if !cand.is_empty() && !cand.chars().any(char::is_whitespace) && bip39::lookup(&cand).is_none() {
             return cand;
         }
     }
@@ -473,8 +498,84 @@ fn embedded_strategy() -> impl Strategy<Value = PhraseCase> {
 
 // ---------------------------------------------------------------- run
 
+// ---------------------------------------------------------------- (g) through the executable
+
+#[derive(Clone, Debug, Serialize, Deserialize)]
+pub struct CliPhrase {
+    pub phrase: String,
+    /// MNEMONIC variable instead of --mnemonic=
+    pub via_env: bool,
+    /// address | public-key | export
+    pub cmd: String,
+}
+
+fn wrong_checksum_strategy() -> impl Strategy<Value = PhraseCase> {
+    (entropy_strategy(), 0u16..2048, 0usize..24).prop_map(|(e, w, pos)| {
+        let mut words: Vec<&str> = bip39::encode_words(&e);
+        let i = if pos % 3 == 0 { words.len() - 1 } else { pos % words.len() };
+        words[i] = bip39::word(w);
+        PhraseCase { phrase: words.join(" ") }
+    })
+}
+
+fn cli_strategy() -> impl Strategy<Value = CliPhrase> {
+    (prop_oneof![valid_strategy(), unknown_strategy(), embedded_strategy(), wrong_checksum_strategy()], any::<bool>(), 0usize..3).prop_map(|(c, via_env, k)| CliPhrase {
+        phrase: c.phrase.replace('\0', ""),
+        via_env,
+        cmd: ["address", "public-key", "export"][k].to_string(),
+    })
+}
+
+/// A subcommand taking the mnemonic accepts it exactly when the phrase is valid (then it acts on the wallet of
+/// that entropy) and otherwise ends with an ordinary error and prints nothing.
+fn judge_cli(c: &CliPhrase, cls: &mut Classifier) -> Verdict {
+    use crate::cli::Invocation;
+    let phrase = &c.phrase;
+    let tokens = bip39::split_ascii_ws(phrase);
+    let has_unicode_ws = phrase.chars().any(|ch| ch.is_whitespace() && !is_ascii_ws(ch));
+    let mut inv = Invocation::new(&[c.cmd.as_str()]);
+    inv = if c.via_env { inv.env("MNEMONIC", phrase.clone()) } else { inv.arg(format!("--mnemonic={phrase}")) };
+    let Some(out) = crate::cli::run_global(&inv) else { return fail("cli", "not configured", "CLI not available") };
+    if out.timed_out {
+        cls.label("cli-timed-out");
+        return Ok(());
+    }
+    let shown = format!("`hdwallet {}` with the phrase {:?} by {}", c.cmd, crate::engine::truncate(phrase, 300), if c.via_env { "MNEMONIC" } else { "--mnemonic=" });
+    if out.panicked() {
+        return fail("a result or an ordinary error", out.describe(), shown);
+    }
+    if has_unicode_ws {
+        cls.unspecified("cli-unspecified-phrase");
+        return Ok(());
+    }
+    match bip39::decode_phrase(phrase) {
+        Ok(entropy) => {
+            let seed = bip39::seed_from_normalised(&bip39::encode_phrase(&entropy), "");
+            let key = crate::refimpl::bip32::derive(&seed, &crate::refimpl::bip32::default_path(0)).expect("reference key");
+            let public = crate::refimpl::secp::mul_g(&key).expect("valid key");
+            let want = match c.cmd.as_str() {
+                "address" => format!("0x{}\n", crate::refimpl::hex_lower(&crate::refimpl::address_of(&public))),
+                "public-key" => format!("0x{}\n", crate::refimpl::hex_lower(&crate::refimpl::secp::uncompressed(&public))),
+                _ => format!("0x{}\n", crate::refimpl::hex_lower(&key)),
+            };
+            if !out.ok() || !out.stdout_str().eq_ignore_ascii_case(&want) {
+                return fail(want, out.describe(), format!("{shown}: a valid phrase must be accepted and select the wallet of its entropy"));
+            }
+            cls.label("cli-accepted");
+        }
+        Err(why) => {
+            if !out.ordinary_error() || !out.stdout.is_empty() {
+                return fail(format!("ordinary error and empty stdout ({why:?})"), out.describe(), format!("{shown}: an invalid phrase must be refused"));
+            }
+            cls.label("cli-rejected");
+        }
+    }
+    cls.nontrivial(&(phrase.as_str(), c.via_env, c.cmd.as_str()));
+    Ok(())
+}
+
 pub fn run(ctx: &mut Ctx) {
-    ctx.rule = "phrases rendered from (a) entropy of the five sizes x {uniform, all-0, all-1, single bit set/clear, periodic} with ASCII white-space layouts, (b) every word in every position of every length (184320 valid phrases, exhaustive), (c)/(d) for every word count 1..=40 a random prefix followed by each of the 2048 final words (so the checksum cannot mask a wrong length table), plus empty/blank phrases, (e) valid phrases with 1-2 non-words, (f) valid phrases with 1..16 list words appended/prepended/both, with their tail cut off, repeated end words, or two valid phrases glued. Oracle: bit-string BIP-39 reference with its own word list: accept <=> valid; accepted phrases print canonically, report their word count and re-parse. Non-trivial: >= 2 distinct words and not a unit-test vector; distinct by phrase text.".into();
+    ctx.rule = "phrases rendered from (a) entropy of the five sizes x {uniform, all-0, all-1, single bit set/clear, periodic} with ASCII white-space layouts, (b) every word in every position of every length (184320 valid phrases, exhaustive), (c)/(d) for every word count 1..=40 a random prefix followed by each of the 2048 final words (so the checksum cannot mask a wrong length table), plus empty/blank phrases, (e) valid phrases with 1-2 non-words, (f) valid phrases with 1..16 list words appended/prepended/both, with their tail cut off, repeated end words, or two valid phrases glued. (g) a sample of (a), (e), (f) and wrong-checksum phrases through the executable (`address` / `public-key` / `export` with --mnemonic= or MNEMONIC): accepted phrases must select the wallet of their entropy, all others end with an ordinary error and empty stdout. Every phrase is judged through Mnemonic::from_phrase and through str::parse::<Mnemonic>(). Oracle: bit-string BIP-39 reference with its own word list: accept <=> valid; accepted phrases print canonically, report their word count and re-parse. Non-trivial: >= 2 distinct words and not a unit-test vector; distinct by phrase text.".into();
     ctx.assumptions = vec![
         "sha2::Sha256 is correct".into(),
         "harness/data/bip39-english.txt is the canonical BIP-39 English list (sha256 pinned in code)".into(),
@@ -531,6 +632,17 @@ pub fn run(ctx: &mut Ctx) {
     ctx.run_prop("unknown", t.pick(20_000, 200_000), unknown_strategy, judge_case);
     ctx.run_prop("embedded", t.pick(20_000, 200_000), embedded_strategy, judge_case);
 
+    if crate::cli::global_cli().is_some() {
+        ctx.shrink_iters = 150;
+        ctx.run_prop("cli", t.pick(400, 8000), cli_strategy, judge_cli);
+        if ctx.cls.count("cli-timed-out") > 0 {
+            ctx.inconclusive("CLI watchdog expired");
+        }
+        ctx.floor_abs("cli-accepted", t.pick(60, 1200));
+        ctx.floor_abs("cli-rejected", t.pick(120, 2400));
+    } else {
+        ctx.inconclusive("CLI executable not available for the --mnemonic / MNEMONIC sample");
+    }
     crate::fuzz::run_for(ctx);
     for l in bip39::LENGTHS {
         ctx.floor_abs(&format!("accepted-{l}"), 2048);
@@ -544,6 +656,7 @@ pub fn replay(sub: &str, case: &Value) -> Option<Verdict> {
     match sub {
         "valid" | "unknown" | "blank" | "phrase" | "embedded" => Some(replay_as::<PhraseCase>(case, judge_case)),
         "wordpos" => Some(replay_as::<WordPos>(case, judge_wordpos)),
+        "cli" => Some(replay_as::<CliPhrase>(case, judge_cli)),
         "lastword" => Some(replay_as::<LastWord>(case, judge_lastword)),
         _ => None,
     }
